@@ -8,6 +8,11 @@ template <class T, class S> static void color4_pair (Jobs& jobs)
     C04_JOB (ST_LAYOUT, (convert_ctor<Color4<T>, Color4<S>> (t)); (convert_setget<Color4<T>, Color4<S>> (t)));
     C04_JOB (ST_EQ, (eq_hetero<Color4<T>, Color4<S>> (t)));
 }
+// Color3<T> == Color3<S>: inherited Vec3<T>::operator==<S>, instantiated for the colour element types (unsigned char / half promotions)
+template <class T, class S> static void color3_eq_pair (Jobs& jobs)
+{
+    C04_JOB (ST_EQ, (eq_hetero<Color3<T>, Color3<S>> (t)));
+}
 template <class T, class S> static void shear_pair (Jobs& jobs)
 {
     C04_JOB (ST_LAYOUT, (convert_ctor<Shear6<T>, Shear6<S>> (t)); (convert_setget<Shear6<T>, Shear6<S>> (t)));
@@ -90,6 +95,8 @@ void register_conv_misc (Jobs& jobs)
 {
     color4_pair<half, float> (jobs); color4_pair<half, uchar> (jobs); color4_pair<float, half> (jobs);
     color4_pair<float, uchar> (jobs); color4_pair<uchar, half> (jobs); color4_pair<uchar, float> (jobs);
+    color3_eq_pair<half, float> (jobs); color3_eq_pair<half, uchar> (jobs); color3_eq_pair<float, half> (jobs);
+    color3_eq_pair<float, uchar> (jobs); color3_eq_pair<uchar, half> (jobs); color3_eq_pair<uchar, float> (jobs);
     shear_pair<float, double> (jobs); shear_pair<double, float> (jobs);
     quat_pair<float, double> (jobs); quat_pair<double, float> (jobs);
     matrix_pair<float, double> (jobs); matrix_pair<double, float> (jobs);
